@@ -87,10 +87,10 @@ class Harness:
     def feed(self, text, origin=''):
         for line in text.splitlines():
             if line.startswith('STAT '):
-                _, k, v = line.split(' ', 2)
+                k, v = line[5:].rsplit(' ', 1)
                 self.stats[k] = self.stats.get(k, 0) + int(v)
             elif line.startswith('MAXF '):
-                _, k, v = line.split(' ', 2)
+                k, v = line[5:].rsplit(' ', 1)
                 self.maxf[k] = max(self.maxf.get(k, float('-inf')), float(v))
             elif line.startswith('SAMPLE '):
                 try:
@@ -136,6 +136,8 @@ class Ctx:
         self.deadline = self.t0 + float(os.environ.get('VERIF_DEADLINE_S', '2400'))
         self.capped = False
         self._stdin_cache = {}
+        import threading
+        self._lock = threading.Lock()
 
     # ------------------------------------------------------------------ build cache
     def _prune(self):
@@ -220,13 +222,13 @@ class Ctx:
                 os.path.basename(binary), ' '.join(map(str, args)), p.returncode,
                 (p.stderr or p.stdout)[-1500:]))
         if feed:
-            n0 = len(self.h.viols)
-            self.h.feed(p.stdout, origin or os.path.basename(binary).rsplit('-', 1)[0])
-            for _, det in self.h.viols[n0:]:
-                det['_cmd'] = [binary] + [str(a) for a in args]
-                if stdin is not None:
-                    det['_stdin_len'] = len(stdin)
-                    self._stdin_cache[tuple(det['_cmd'])] = stdin
+            with self._lock:
+                n0 = len(self.h.viols)
+                self.h.feed(p.stdout, origin or os.path.basename(binary).rsplit('-', 1)[0])
+                for _, det in self.h.viols[n0:]:
+                    det['_cmd'] = [binary] + [str(a) for a in args]
+                    if stdin is not None:
+                        self._stdin_cache[tuple(det['_cmd'])] = stdin
         return p.stdout
 
     def default_replay(self, key, det):
